@@ -199,4 +199,19 @@ def classify(f):
 
 
 def replay(chk, payload):
-    run(chk)
+    """re-evaluate the oracle on exactly the stored (carrier, t, y)"""
+    c = payload["failure"]["input"]
+    if "carrier" not in c:
+        return run(chk)
+    car, kw, args = F.carriers(None)[c["carrier"]]
+    mb = car.massbins
+    y = np.array([C.unjson_float(v) for v in c["y"]])
+    t = C.unjson_float(c["t"])
+    mto = float(car.compute_mto(np.array(t)))
+    try:
+        out = ("Ok", [list(map(float, a)) for a in mb.unpack_values(car._derivs_sev(t, y.copy()))])
+    except (ValueError, IndexError) as e:
+        out = ("Err", type(e).__name__)
+    m_rem, cls = (float(car.IFMR.predict(mto)), car.IFMR.predict_type(mto)) if math.isfinite(mto) else (float("nan"), "WD")
+    print("t =", t, "mto =", mto, "m_rem =", m_rem, cls, "->", out[0])
+    oracle(chk, car, args, dict(c, y=list(y), t=t), out, mto, m_rem, cls)
